@@ -81,16 +81,16 @@ def build_coq(targets):
 
 REFINE = {
     # property -> Refine/<file>.v whose lemmas tie the generated code (rs2v) to the model
-    "C01": ["SigCore", "SigSchemes", "WSig"], "C02": ["SigCore", "SigSchemes", "WSig", "WCodec"],
-    "C03": ["HelpersR", "Consts", "SigSchemes", "WSig"],
+    "C01": ["SigCore", "SigSchemes", "WSig", "WEnum"], "C02": ["SigCore", "SigSchemes", "WSig", "WCodec"],
+    "C03": ["HelpersR", "Consts", "SigSchemes", "WSig", "WEnum"],
     "C04": ["HelpersR", "SigCore", "SigSchemes", "PoK", "SignCrypt", "TimeLock", "ElGamal", "WSig", "WPoK", "WEnc"],
     "C05": ["Consts", "SigSchemes", "WSig", "WPoK", "WEnc"],
     "C06": ["SigCore", "SigSchemes", "WSig"], "C07": ["SigSchemes", "WSig"], "C08": ["SigCore", "WSig"],
     "C09": ["SigSchemes", "WSig", "WCodec"], "C10": ["PoK", "WPoK"], "C11": ["HelpersR", "SignCrypt", "WEnc"],
     "C12": ["SignCrypt", "SigCore", "WEnc"], "C13": ["HelpersR", "TimeLock", "WEnc"], "C14": ["ElGamal", "Consts", "WEnc"],
-    "C15": ["HelpersR", "Consts", "WCodec"], "C16": ["HelpersR", "Consts", "WCodec"], "C17": ["HelpersR", "PoK", "SignCrypt", "TimeLock", "WSig", "WPoK", "WEnc", "WCodec"],
+    "C15": ["HelpersR", "Consts", "WCodec", "WEnum"], "C16": ["HelpersR", "Consts", "WCodec", "WEnum"], "C17": ["HelpersR", "PoK", "SignCrypt", "TimeLock", "WSig", "WPoK", "WEnc", "WCodec", "WEnum"],
     "C18": ["HelpersR", "Consts", "PoK", "SignCrypt", "TimeLock", "ElGamal", "WEnc", "WCodec"], "C19": ["HelpersR"],
-    "C20": ["PoK", "SignCrypt", "TimeLock", "WSig", "WPoK", "WEnc"],
+    "C20": ["PoK", "SignCrypt", "TimeLock", "WSig", "WPoK", "WEnc", "WEnum"],
 }
 
 
